@@ -2,6 +2,7 @@ SPECIFICATION Spec
 CONSTANTS Desc = {1, 2}
   OnCancel = "kill-tree"
   ReapedGroupKill = TRUE
+  StaleWaited = FALSE
   TermThenWait = TRUE
   GroupWhenTranslated = TRUE
   WaitDelay = TRUE
